@@ -523,6 +523,287 @@ impl World for Rwa {
     }
 }
 
+// =============================================================================================
+// World 2: the same token over the library's REAL compliance contract (module registry + hook
+// dispatch) with two scripted modules: the compliance gate is the conjunction over the modules
+// registered for CanTransfer / CanCreate, and every module registered for Transferred / Created /
+// Destroyed is notified exactly once per successful movement.
+
+use stellar_tokens::rwa::compliance::ComplianceHook;
+
+const HOOKS: [(&str, usize); 5] = [("CanTransfer", 0), ("CanCreate", 1), ("Transferred", 2), ("Created", 3), ("Destroyed", 4)];
+
+fn hook(k: usize) -> ComplianceHook {
+    match k {
+        0 => ComplianceHook::CanTransfer,
+        1 => ComplianceHook::CanCreate,
+        2 => ComplianceHook::Transferred,
+        3 => ComplianceHook::Created,
+        _ => ComplianceHook::Destroyed,
+    }
+}
+
+#[derive(Clone, Debug, PartialEq, Eq)]
+enum COp {
+    Register { hook: usize, m: usize },
+    Unregister { hook: usize, m: usize },
+    ModuleFlags { m: usize, transfer: bool, create: bool },
+    Mint { to: usize },
+    Transfer { from: usize, to: usize },
+    TransferFrom { from: usize, to: usize },
+    Forced { from: usize, to: usize },
+    Burn { x: usize },
+}
+
+#[derive(Clone, Debug, PartialEq, Eq, Hash)]
+struct CState {
+    bal: [i128; 2],
+    allow: [i128; 2], // allowance(x -> spender)
+    reg: [[bool; 2]; 5],
+    flags: [(bool, bool); 2],
+}
+
+struct RealComp {
+    thorough: bool,
+}
+
+struct CInst {
+    e: Env,
+    tok: Address,
+    comp: Address,
+    modules: [Address; 2],
+    u: [Address; 2],
+    spender: Address,
+}
+
+impl RealComp {
+    fn call(&self, i: &CInst, op: &COp) -> (Address, &'static str, SVec<Val>) {
+        let e = &i.e;
+        let u = |k: usize| i.u[k].clone();
+        let t = i.tok.clone();
+        match op {
+            COp::Register { hook: h, m } => (i.comp.clone(), "add_module_to", (hook(*h), i.modules[*m].clone()).into_val(e)),
+            COp::Unregister { hook: h, m } => (i.comp.clone(), "remove_module_from", (hook(*h), i.modules[*m].clone()).into_val(e)),
+            COp::ModuleFlags { m, transfer, create } => (i.modules[*m].clone(), "set_flags", (*transfer, *create).into_val(e)),
+            COp::Mint { to } => (t, "mint", (u(*to), 2i128).into_val(e)),
+            COp::Transfer { from, to } => (t, "transfer", (u(*from), u(*to), 1i128).into_val(e)),
+            COp::TransferFrom { from, to } => (t, "transfer_from", (i.spender.clone(), u(*from), u(*to), 1i128).into_val(e)),
+            COp::Forced { from, to } => (t, "forced_transfer", (u(*from), u(*to), 1i128).into_val(e)),
+            COp::Burn { x } => (t, "burn", (u(*x), 1i128).into_val(e)),
+        }
+    }
+    /// Execute; returns (accepted, notifications received by module 0 and module 1).
+    fn exec(&self, i: &CInst, op: &COp) -> (bool, [Vec<LogRec>; 2]) {
+        let (c, f, args) = self.call(i, op);
+        let ok = call_mocked(&i.e, &c, f, args).is_ok();
+        let mut logs: [Vec<LogRec>; 2] = [vec![], vec![]];
+        if ok {
+            for m in 0..2 {
+                let v = view(&i.e, &i.modules[m], "log", SVec::new(&i.e)).expect("log");
+                let notes: SVec<Note> = SVec::try_from_val(&i.e, &v).expect("notes");
+                for n in notes.iter() {
+                    logs[m].push(LogRec {
+                        what: n.what.to_string(),
+                        from: n.from.as_ref().and_then(|a| i.u.iter().position(|x| x == a)),
+                        to: n.to.as_ref().and_then(|a| i.u.iter().position(|x| x == a)),
+                        amount: if n.token == i.tok { n.amount } else { i128::MIN },
+                    });
+                }
+                if !logs[m].is_empty() {
+                    call_mocked(&i.e, &i.modules[m], "reset_log", SVec::new(&i.e)).expect("reset");
+                }
+            }
+        }
+        (ok, logs)
+    }
+    fn observe(&self, i: &CInst, m: &CState) -> Result<CState, Violation> {
+        let e = &i.e;
+        let mut o = m.clone();
+        for k in 0..2 {
+            o.bal[k] = i128_of(e, view(e, &i.tok, "balance", (i.u[k].clone(),).into_val(e)).map_err(|x| Violation::new("getter", format!("{x:?}")))?);
+            o.allow[k] = i128_of(e, view(e, &i.tok, "allowance", (i.u[k].clone(), i.spender.clone()).into_val(e)).map_err(|x| Violation::new("getter", format!("{x:?}")))?);
+        }
+        Ok(o)
+    }
+}
+
+impl World for RealComp {
+    type Op = COp;
+    type Model = CState;
+    type Inst = CInst;
+
+    fn name(&self) -> String {
+        format!("rwa-token-over-real-compliance{}", if self.thorough { "-t" } else { "" })
+    }
+
+    fn seeds(&self) -> usize {
+        2
+    }
+    fn seed_name(&self, s: usize) -> String {
+        ["no module registered", "both modules registered for every hook"][s].into()
+    }
+
+    fn fresh(&self, seed: usize) -> (CInst, CState) {
+        let e = envx::mk_env(100);
+        let u = [Address::generate(&e), Address::generate(&e)];
+        let spender = Address::generate(&e);
+        let comp = e.register(rwa_wrap::RealCompliance, ());
+        let ver = e.register(rwa_wrap::MockVerifier, ());
+        let modules = [e.register(rwa_wrap::MockModule, ()), e.register(rwa_wrap::MockModule, ())];
+        let tok = e.register(rwa_wrap::RwaTok, (comp.clone(), ver.clone()));
+        call_mocked(&e, &comp, "bind_token", (tok.clone(),).into_val(&e)).expect("bind");
+        for k in 0..2 {
+            call_mocked(&e, &ver, "set_verified", (u[k].clone(), true).into_val(&e)).expect("verify");
+            call_mocked(&e, &modules[k], "set_flags", (true, true).into_val(&e)).expect("flags");
+        }
+        call_mocked(&e, &tok, "mint", (u[0].clone(), 4i128).into_val(&e)).expect("mint");
+        for k in 0..2 {
+            call_mocked(&e, &tok, "approve", (u[k].clone(), spender.clone(), 3i128, 5000u32).into_val(&e)).expect("approve");
+        }
+        let mut reg = [[false; 2]; 5];
+        if seed == 1 {
+            for h in 0..5 {
+                for k in 0..2 {
+                    call_mocked(&e, &comp, "add_module_to", (hook(h), modules[k].clone()).into_val(&e)).expect("register");
+                    reg[h][k] = true;
+                }
+            }
+            for k in 0..2 {
+                call_mocked(&e, &modules[k], "reset_log", SVec::new(&e)).expect("reset");
+            }
+        }
+        let i = CInst { e, tok, comp, modules, u, spender };
+        let m = CState { bal: [0; 2], allow: [0; 2], reg, flags: [(true, true); 2] };
+        let m = self.observe(&i, &m).expect("observe");
+        (i, m)
+    }
+
+    fn ops(&self, _i: &CInst, m: &CState, _d: usize) -> Vec<COp> {
+        let mut v = vec![];
+        let hooks: Vec<usize> = if self.thorough { (0..5).collect() } else { vec![0, 1, 2] };
+        for h in hooks {
+            for k in 0..2 {
+                v.push(COp::Register { hook: h, m: k });
+                v.push(COp::Unregister { hook: h, m: k });
+            }
+        }
+        for k in 0..2 {
+            let (t, c) = m.flags[k];
+            v.push(COp::ModuleFlags { m: k, transfer: !t, create: c });
+            v.push(COp::ModuleFlags { m: k, transfer: t, create: !c });
+        }
+        v.push(COp::Mint { to: 1 });
+        v.push(COp::Transfer { from: 0, to: 1 });
+        v.push(COp::TransferFrom { from: 0, to: 1 });
+        v.push(COp::Forced { from: 0, to: 1 });
+        v.push(COp::Burn { x: 0 });
+        v
+    }
+
+    fn kind(&self, op: &COp) -> String {
+        match op {
+            COp::Register { .. } => "compliance.add_module",
+            COp::Unregister { .. } => "compliance.remove_module",
+            COp::ModuleFlags { .. } => "env",
+            COp::Mint { .. } => "mint",
+            COp::Transfer { .. } => "transfer",
+            COp::TransferFrom { .. } => "transfer_from",
+            COp::Forced { .. } => "forced_transfer",
+            COp::Burn { .. } => "burn",
+        }
+        .into()
+    }
+    fn apply(&self, i: &mut CInst, op: &COp) {
+        self.exec(i, op);
+    }
+
+    fn step(&self, i: &mut CInst, m: &mut CState, op: &COp, cx: &mut StepCtx<Self>) -> Result<bool, Violation> {
+        let pre = m.clone();
+        let (ok, logs) = self.exec(i, op);
+        if !ok {
+            let single = |h: usize, pick: fn(&(bool, bool)) -> bool| pre.reg[h][0] && pre.reg[h][1] && (pick(&pre.flags[0]) != pick(&pre.flags[1]));
+            match op {
+                COp::Transfer { .. } | COp::TransferFrom { .. } if single(0, |f| f.0) => cx.stats.count("#movement refused with exactly one of two registered modules denying", 1),
+                COp::Mint { .. } if single(1, |f| f.1) => cx.stats.count("#movement refused with exactly one of two registered modules denying", 1),
+                _ => {}
+            }
+            return Ok(false);
+        }
+        let mut x = pre.clone();
+        // which notification every registered module of hook `h` must receive
+        let mut notify: Option<(usize, LogRec)> = None;
+        let approves = |h: usize, pick: fn(&(bool, bool)) -> bool| (0..2).all(|k| !pre.reg[h][k] || pick(&pre.flags[k]));
+        match op {
+            COp::Register { hook: h, m: k } => {
+                ensure!(!pre.reg[*h][*k], "module-registry", "{:?} succeeded although the module is registered", op);
+                x.reg[*h][*k] = true;
+            }
+            COp::Unregister { hook: h, m: k } => {
+                ensure!(pre.reg[*h][*k], "module-registry", "{:?} succeeded although the module is not registered", op);
+                x.reg[*h][*k] = false;
+            }
+            COp::ModuleFlags { m: k, transfer, create } => x.flags[*k] = (*transfer, *create),
+            COp::Mint { to } => {
+                ensure!(approves(1, |f| f.1), "gate-compliance", "mint succeeded although a module registered for CanCreate denies it ({:?}, {:?})", pre.reg[1], pre.flags);
+                x.bal[*to] += 2;
+                notify = Some((3, LogRec { what: "created".into(), from: None, to: Some(*to), amount: 2 }));
+            }
+            COp::Transfer { from, to } | COp::TransferFrom { from, to } => {
+                ensure!(
+                    approves(0, |f| f.0),
+                    "gate-compliance",
+                    "{:?} succeeded although a module registered for CanTransfer denies it (registered {:?}, (transfer, create) verdicts {:?})",
+                    op,
+                    pre.reg[0],
+                    pre.flags
+                );
+                x.bal[*from] -= 1;
+                x.bal[*to] += 1;
+                if matches!(op, COp::TransferFrom { .. }) {
+                    x.allow[*from] -= 1;
+                }
+                notify = Some((2, LogRec { what: "transfer".into(), from: Some(*from), to: Some(*to), amount: 1 }));
+            }
+            COp::Forced { from, to } => {
+                x.bal[*from] -= 1;
+                x.bal[*to] += 1;
+                notify = Some((2, LogRec { what: "transfer".into(), from: Some(*from), to: Some(*to), amount: 1 }));
+            }
+            COp::Burn { x: who } => {
+                x.bal[*who] -= 1;
+                notify = Some((4, LogRec { what: "destroyed".into(), from: Some(*who), to: None, amount: 1 }));
+            }
+        }
+        let post = self.observe(i, &x)?;
+        ensure!(post == x, "lockstep", "after {:?}\n     expected {:?}\n     observed {:?}", op, x, post);
+        for k in 0..2 {
+            let want: Vec<LogRec> = match &notify {
+                Some((h, rec)) if pre.reg[*h][k] => vec![rec.clone()],
+                _ => vec![],
+            };
+            ensure!(
+                logs[k] == want,
+                "compliance-notification",
+                "{:?}: module M{} (registered for {:?}) was notified {:?}, expected {:?}",
+                op,
+                k + 1,
+                HOOKS.iter().filter(|(_, h)| pre.reg[*h][k]).map(|(n, _)| *n).collect::<Vec<_>>(),
+                logs[k],
+                want
+            );
+        }
+        *m = post;
+        Ok(true)
+    }
+
+    fn key(&self, i: &CInst) -> [u8; 32] {
+        envx::storage_digest(&i.e, false)
+    }
+    fn model_digest(&self, m: &CState) -> u64 {
+        vh::engine::dig(m)
+    }
+}
+
 fn main() {
     main_with(
         "C04",
@@ -533,11 +814,13 @@ fn main() {
             let all: Vec<usize> = (0..8).collect();
             r.world(&Rwa { thorough: th, seed_set: all }, &Bounds::new(tier.pick(2, 3), tier.pick(30, 400)));
             r.world(&Rwa { thorough: th, seed_set: vec![0] }, &Bounds::new(tier.pick(3, 4), tier.pick(30, 400)));
+            r.world(&RealComp { thorough: th }, &Bounds::new(tier.pick(5, 6), tier.pick(30, 400)));
             if let Some(rep) = r.report() {
                 rep.require(
-                    &["mint", "transfer", "transfer_from", "forced_transfer", "burn", "recover_balance", "set_address_frozen", "freeze_partial", "unfreeze_partial", "pause", "unpause", "env"],
+                    &["mint", "transfer", "transfer_from", "forced_transfer", "burn", "recover_balance", "set_address_frozen", "freeze_partial", "unfreeze_partial", "pause", "unpause", "env", "compliance.add_module", "compliance.remove_module"],
                     &["mint", "transfer", "transfer_from", "forced_transfer", "burn", "recover_balance", "freeze_partial", "unfreeze_partial", "pause", "unpause"],
                 );
+                rep.require_counter(&["#movement refused with exactly one of two registered modules denying"]);
             }
         },
     );
